@@ -603,6 +603,8 @@ def read_header(filename):
     ok = bool(reads) and all(len(e.data['args']) == 2 and e.data['args'][1].const() == 80 for e in reads)
     ctx.ob('AGREE', 'read_header consumes 80-byte records', rh, ok, {'reads': [e.text() for e in reads]}, node=rh.node,
            construct='f.read(80)')
+    from .common import memo_obligation
+    memo_obligation(ctx, rh, 'the RAW readers describe the file as it is now')
 
 
 def _unordered(t):
